@@ -29,6 +29,33 @@ LS = LUBA.ReadState
 SS = SCI.ReadState
 
 
+def decoded_under(c):
+    f = c.fields if isinstance(c, SObj) else vars(c)
+    return f.get("_decoded_under")
+
+
+def check_observed(ctx, interp, item, bits, data, prev_dt, dmap, label=""):
+    """the delivered item is from_frame(ForwardFrame(bits, data), devicetype=prev_dt, dev_inst_map=dmap)"""
+    fr = interp.get_attr(item, "frame")
+    ctx.prove(label + "item-is-a-command-with-the-observed-bits", And(is_instance(item, C.Command), fr._bits == bits, fr._data == data))
+    if type_of(item) is G.EnableDeviceType:
+        ctx.prove(label + "enable-device-type-recognised", And(bits == 16, (data >> 8) == 0xC1, item.param == (data & 0xFF)))
+        return
+    if getattr(ctx, "native", False):
+        # replay on the real code: the delivered object is what the real decoder makes of the frame in this context
+        want = C.from_frame(F.ForwardFrame(bits, data), devicetype=prev_dt, dev_inst_map=dmap)
+        ctx.prove(label + "decoded-through-from_frame", type(item) is type(want) and item.frame == want.frame
+                  and str(item) == str(want), detail="delivered %s, decoder gives %s" % (item, want))
+        return
+    du = decoded_under(item)
+    ok = du is not None
+    ctx.prove(label + "decoded-through-from_frame", ok)
+    if ok:
+        ctx.prove(label + "decoded-with-the-device-type-of-the-preceding-frame-only", interp.truth(interp.eq(du[0], prev_dt)),
+                  detail="device type used %r, announced %r" % (du[0], prev_dt))
+        ctx.prove(label + "decoded-with-the-drivers-instance-map", du[1] is dmap)
+
+
 def q_items(q):
     if isinstance(q, MQueue):
         return list(q.items)
@@ -214,6 +241,52 @@ def units(tier):
             check_items(ctx, interp, p, kids, want, world)
             ctx.prove("reception-resumes", And(p._rx_state is LS.WAIT_START, luba_R(p)))
         unit("luba/state=WAIT_CHECKSUM/L=%d" % L, r_check)
+
+    # ------------------------------------------------------------ LUBA: a "frame sent" event (transmit confirmation)
+    # the confirmation names the frame id and carries the transmitted frame decoded under the device type announced by
+    # the previous TRANSMITTED frame; the device type remembered for frames SEEN on the bus is a separate stream
+    for nbytes in (2, 3):
+        def r_sent(ctx, interp, fn, nbytes=nbytes):
+            from dali.device import helpers as H
+            world = World(ctx, interp)
+            install(interp, world)
+            prev_tx = ctx.int("prev_tx_devicetype", 0, 255)
+            prev_rx = ctx.int("prev_rx_devicetype", 0, 255)
+            dmap = ctx.new(H.DeviceInstanceTypeMapper, _mapping={})
+            data = [ctx.int("d%d" % i, 0, 255) for i in range(nbytes)]
+            info = ctx.int("event_info", 0, 63)
+            tx_id = ctx.int("tx_id", 0, 255)
+            payload = [ctx.int("tick_hi", 0, 255), ctx.int("tick_lo", 0, 255), 0, info, tx_id] + data
+            L = len(payload)
+            buf = [0x59, 0x31, L] + payload + [None] * (21 - L)
+            p, kids = luba_proto(ctx, world, LS.WAIT_CHECKSUM, buf, L, L, prev_rx=prev_rx, prev_tx=prev_tx, dmap=dmap)
+            frame = tuple(buf[:L + 3] + [0])
+            try:
+                interp.call(interp.get_attr(p, "_process_luba_event"), (frame,), {})
+            except RaiseEx as e:
+                ctx.fail("never-raises:%s" % e.cls.__name__, detail="at %s" % e.where)
+                return
+            ctx.cover()
+            value = 0
+            for b in data:
+                value = (value << 8) | b
+            txc = q_items(p._queue_tx_conf)
+            ok = len(txc) == 1
+            ctx.prove("exactly-one-transmit-confirmation", ok, detail="%d confirmations" % len(txc))
+            if ok:
+                ctx.prove("confirmation-names-the-frame-id", interp.get_attr(txc[0], "tx_id") == tx_id)
+                msg = interp.get_attr(txc[0], "message")
+                ctx.prove("confirmation-carries-the-decoded-frame", msg is not None)
+                if msg is not None:
+                    check_observed(ctx, interp, msg, 8 * nbytes, value, prev_tx, dmap, label="transmitted/")
+            is_edt = And(nbytes == 2, data[0] == 0xC1)
+            ctx.prove("device-type-memory-of-the-transmitted-stream", p._prev_tx_enable_dt == ite(is_edt, data[1], 0),
+                      detail="an enable-device-type frame is remembered for the next transmitted frame only")
+            ctx.prove("device-type-of-the-observed-stream-untouched", p._prev_rx_enable_dt == prev_rx,
+                      detail="a transmit confirmation changed the device type remembered for frames seen on the bus")
+            ctx.prove("nothing-delivered-as-observed-or-answer",
+                      And(all(len(q_items(k)) == 0 for k in kids), len(q_items(p._queue_rx_raw_dali)) == 0))
+        unit("luba/frame-sent-event/%d-bit" % (8 * nbytes), r_sent)
 
     # ------------------------------------------------------------ LUBA: data_received is the fold of _process_byte
     def r_fold(ctx, interp, fn):
